@@ -20,6 +20,12 @@ CHECKS = {
     technique="TLA+ contract tables + TLC exhaustive request enumeration + trace validation of recorded outcomes"),
 }
 
+CHECKS["C13"] = dict(
+    text="FVLimiters holds the published closed forms of the 16 limiters in exact rationals; TLC checks psi(1)=1, the TVD region, the clipping family, symmetry and the SUPERBEE fallback on a rational grid (FVDesignLimiter) and emits the grid; the real fluxLimiter(name) is evaluated on every grid point as 0-D..3-D arrays and at +-10^k, and FVTraceLimiter evaluates every clause on the lifted observations (the reference is the property here). The TVD-term totality clause is validated on all small integer fields by the operator layer.",
+    ref="DESIGN.md 5/C13",
+    note="rational grid |p|<=60, q in {1,2,3,4,5,8} plus singular points; +-10^k by enclosures; formulas as transcribed from the cited table",
+    technique="TLA+ closed forms + TLC invariants on a rational grid + trace validation of lifted evaluations")
+
 NOT_APPLICABLE = {
  "C02": "asymptotic convergence order under refinement: no reals/limits in TLA+, exact lifting does not survive solves on refined grids (DESIGN 8)",
 }
